@@ -506,6 +506,9 @@ func (ex *Exec) applyContract(fr *frame, fc *FuncContract, callee *ssa.Function,
 	}
 	// havoc the modifies set
 	ex.havocModifies(fc, env, s, g)
+	// a closure handed to the callee may be run by it: whatever the closure writes (captured
+	// variables, maps, heap) is written by this call as well
+	ex.havocClosureEffects(args, g, s)
 	// results
 	res := ex.freshResult(sig.Results(), s, g)
 	post := &SpecEnv{ex: ex, vars: map[string]Val{}, cur: s, old: pre, pkg: env.pkg}
@@ -985,5 +988,93 @@ func noteReliance(fn string, fc *FuncContract) {
 	}
 	if fc.Modifies != nil {
 		m["frame"] = true
+	}
+}
+
+// ---- closures passed as arguments ----
+
+// closureTerms: the closure identities an argument value may carry (the value itself, or the
+// payload of an interface built from a named function type such as dst.inspector).
+func closureTerms(t string) []string {
+	out := []string{t}
+	if strings.HasPrefix(t, "(mkI ") && strings.HasSuffix(t, ")") {
+		body := t[5 : len(t)-1]
+		// second argument: after the first balanced term
+		depth, i := 0, 0
+		for i = 0; i < len(body); i++ {
+			switch body[i] {
+			case '(':
+				depth++
+			case ')':
+				depth--
+			}
+			if depth == 0 && body[i] == ' ' {
+				break
+			}
+		}
+		if i < len(body) {
+			out = append(out, strings.TrimSpace(body[i:]))
+		}
+	}
+	return out
+}
+
+func (ex *Exec) havocClosureEffects(args []Val, g string, s *State) {
+	u := ex.u
+	for _, a := range args {
+		if a.T == "" {
+			continue
+		}
+		for _, t := range closureTerms(a.T) {
+			cv := closures[t]
+			if cv == nil {
+				continue
+			}
+			keys := map[string]bool{}
+			ex.funcModKeys(cv.fn, keys, map[*ssa.Function]bool{})
+			var ks []string
+			for k := range keys {
+				ks = append(ks, k)
+			}
+			sort.Strings(ks)
+			for _, k := range ks {
+				switch {
+				case k == "*":
+					ex.havocAll(s)
+				case strings.HasPrefix(k, "*freevar:"):
+					name := strings.TrimPrefix(k, "*freevar:")
+					for i, fv := range cv.fn.FreeVars {
+						if fv.Name() != name || i >= len(cv.bindings) {
+							continue
+						}
+						b := cv.bindings[i]
+						if b.Loc != nil && b.Loc.Kind == LLocal {
+							if _, ok := u.keySorts[b.Loc.Key]; ok {
+								hv := u.havoc(s, b.Loc.Key)
+								if lt, ok := ex.localTyp[b.Loc.Key]; ok {
+									if f := ex.wf(Val{T: hv, Typ: lt}, s); f != "true" {
+										u.fact(implies(g, f))
+									}
+								}
+							}
+							delete(ex.ptrLocals(s), b.Loc.Key)
+						} else {
+							ex.havocAll(s)
+						}
+					}
+				case k == "next":
+					u.keySort("next", SInt)
+					before := u.get(s, "next")
+					n := u.havoc(s, "next")
+					u.fact(implies(g, app(">=", n, before)))
+				case strings.HasPrefix(k, "*"):
+					ex.havocAll(s)
+				default:
+					if _, ok := u.keySorts[k]; ok {
+						u.havoc(s, k)
+					}
+				}
+			}
+		}
 	}
 }
